@@ -105,6 +105,11 @@ func rowsString(rows []sut.WalkRow) string {
 var c03Ops = []string{"text", "text-fmt1", "text-fmt5", "json", "yaml", "toml", "walk", "walkiter", "text-massive", "walk-massive", "json-massive"}
 var massiveHung bool
 
+// c03Matrix: combinations of output options in various orders (later encodings override earlier ones, options that
+// do not concern output are ignored): both API families must agree on every one of them
+var c03Matrix = []string{"matrix:fmt,json", "matrix:json,fmt", "matrix:json,yaml", "matrix:yaml,toml,json", "matrix:nil,fmt,nil", "matrix:exts,fmt",
+	"matrix:noiter,fmt", "matrix:noiter,yaml", "matrix:target,strict,json", "matrix:fmt,exts,target,strict,noiter", "matrix:toml,fmt,exts"}
+
 var c03FSOps = []string{"mkdir", "mkdir-ext", "verify", "verify-strict", "mkdir-dry", "mkdir+verify-strict", "mkdir-massive", "verify-massive", "mkdir-dry-massive"}
 
 // c03Op runs one operation through the From-Root family (root != nil) or the From-Markdown family.
@@ -131,6 +136,32 @@ func c03Op(op string, root *gtree.Node, doc string, alias bool) (res opResult, p
 			massive = true
 			opts = append(opts, gtree.WithMassive(context.Background()))
 		}
+	}
+	if strings.HasPrefix(op, "matrix:") {
+		// an arbitrary combination of output options (dry run excluded: the statement pairs it with mkdir only)
+		for _, o := range strings.Split(strings.TrimPrefix(op, "matrix:"), ",") {
+			switch o {
+			case "json":
+				opts = append(opts, gtree.WithEncodeJSON())
+			case "yaml":
+				opts = append(opts, gtree.WithEncodeYAML())
+			case "toml":
+				opts = append(opts, gtree.WithEncodeTOML())
+			case "fmt":
+				opts = append(opts, sut.FmtOpts(fmtTuples[6])...)
+			case "exts":
+				opts = append(opts, gtree.WithFileExtensions([]string{"b"}))
+			case "noiter":
+				opts = append(opts, gtree.WithNoUseIterOfSimpleOutput())
+			case "nil":
+				opts = append(opts, nil)
+			case "target":
+				opts = append(opts, gtree.WithTargetDir("/nonexistent/never/used"))
+			case "strict":
+				opts = append(opts, gtree.WithStrictVerify())
+			}
+		}
+		op = "text"
 	}
 	switch op {
 	case "text-fmt1":
@@ -327,6 +358,9 @@ func c03Sequence(c *rep.Ctx, calls []addCall, withFS bool) {
 	}
 	doc := enum.SpellForest(model.Forest{mroot}, enum.Canonical)
 	ops := c03Ops
+	if len(calls) <= 4 {
+		ops = append(append([]string{}, c03Ops...), c03Matrix...)
+	}
 	if withFS {
 		ops = append(append([]string{}, c03Ops...), c03FSOps...)
 	}
